@@ -56,7 +56,15 @@ func runSolverCtx(parent context.Context, s solverSpec, file string, timeoutS, s
 	out, _ := cmd.CombinedOutput()
 	ms := time.Since(t0).Milliseconds()
 	txt := string(out)
+	// the verdict is the first line that is a verdict (cvc5 prints warnings before it)
 	first := strings.TrimSpace(strings.SplitN(txt, "\n", 2)[0])
+	for _, ln := range strings.Split(txt, "\n") {
+		ln = strings.TrimSpace(ln)
+		if ln == "unsat" || ln == "sat" || ln == "unknown" || ln == "timeout" {
+			first = ln
+			break
+		}
+	}
 	v := "unknown"
 	switch first {
 	case "unsat":
@@ -74,15 +82,15 @@ func runSolverCtx(parent context.Context, s solverSpec, file string, timeoutS, s
 }
 
 type Solver struct {
-	dir      string
-	tier     string
-	seed     int
-	cache    sync.Map
+	dir       string
+	tier      string
+	seed      int
+	cache     sync.Map
 	liteCache sync.Map
-	mu       sync.Mutex
-	totalMS  int64
-	bySolver map[string]int
-	queries  int
+	mu        sync.Mutex
+	totalMS   int64
+	bySolver  map[string]int
+	queries   int
 }
 
 func newSolver(dir, tier string, seed int) *Solver {
@@ -223,13 +231,18 @@ func (s *Solver) solve(o *Oblig) {
 			kl := hex.EncodeToString(hl[:12])
 			if v, ok := s.liteCache.Load(kl); ok {
 				if v.(bool) {
-					o.Verdict, o.Solver = "unsat", solvers[0].name + "(len-axioms)"
+					o.Verdict, o.Solver = "unsat", solvers[0].name+"(len-axioms)"
 					return
 				}
 			} else {
 				lf := filepath.Join(s.dir, kl+".lite.smt2")
 				os.WriteFile(lf, []byte(lite), 0o644)
 				lr := runSolver(solvers[0], lf, 2, s.seed)
+				if lr.verdict == "unsat" {
+					if ok, _ := s.confirmUnsat(lf, lr, s.seed, 6); !ok {
+						lr.verdict = "unknown"
+					}
+				}
 				os.Remove(lf)
 				s.mu.Lock()
 				s.totalMS += lr.ms
@@ -292,15 +305,30 @@ func (s *Solver) solve(o *Oblig) {
 	} else if o.quickOnly {
 		res = runSolver(solvers[0], file, 3, s.seed)
 		all = append(all, res)
+		if res.verdict == "unsat" {
+			ok, more := s.confirmUnsat(file, res, s.seed, 6)
+			all = append(all, more...)
+			if !ok {
+				res.verdict = "unconfirmed"
+			}
+		}
 	} else {
 		res = runSolver(solvers[0], file, t1, s.seed)
 		all = append(all, res)
+		if res.verdict == "unsat" {
+			ok, more := s.confirmUnsat(file, res, s.seed, t2)
+			all = append(all, more...)
+			if !ok {
+				res.verdict = "unconfirmed"
+				res.solver += "(unsat not reproduced by any other seed or solver)"
+			}
+		}
 	}
-	if !o.quickOnly && !o.Cover && res.verdict != "unsat" && res.verdict != "sat" {
+	if !o.quickOnly && !o.Cover && res.verdict != "unsat" && res.verdict != "sat" && res.verdict != "unconfirmed" {
 		// fall back to the other two solvers and to the first one under other random seeds, in
 		// parallel: quantifier instantiation is seed-sensitive, and any `unsat` is a proof
 		altSeeds := []int{s.seed + 7919, s.seed + 104729, s.seed + 1299709}
-		ch := make(chan solveResult, 2+len(altSeeds))
+		ch := make(chan solveResult, 4+len(altSeeds))
 		pctx, pcancel := context.WithCancel(context.Background())
 		for _, sv := range solvers[1:] {
 			go func(sv solverSpec) { ch <- runSolverCtx(pctx, sv, file, t2, s.seed) }(sv)
@@ -312,15 +340,54 @@ func (s *Solver) solve(o *Oblig) {
 				ch <- r
 			}(sd)
 		}
-		for i := 0; i < 2+len(altSeeds); i++ {
+		// an `unsat` counts once a second configuration has produced it too (see confirmUnsat)
+		var firstUnsat *solveResult
+		needTwo := os.Getenv("GOVC_CONFIRM") != "off"
+		extra := 0
+		for i := 0; i < 2+len(altSeeds)+extra; i++ {
 			r := <-ch
 			all = append(all, r)
-			if res.verdict != "unsat" && res.verdict != "sat" && (r.verdict == "unsat" || r.verdict == "sat") {
+			if r.verdict == "sat" {
 				res = r
+				break
+			}
+			if r.verdict == "unsat" {
+				if firstUnsat == nil && needTwo {
+					rc := r
+					firstUnsat = &rc
+					// the configuration that found it, under two more seeds
+					for _, sv := range solvers {
+						if strings.HasPrefix(r.solver, sv.name) {
+							for _, d := range []int{15485863, 32452843} {
+								extra++
+								go func(sv solverSpec, sd int) {
+									x := runSolverCtx(pctx, sv, file, t2, sd)
+									x.solver += fmt.Sprintf("(seed %d)", sd)
+									ch <- x
+								}(sv, s.seed+d)
+							}
+						}
+					}
+					continue
+				}
+				res = r
+				if firstUnsat != nil {
+					res.solver = firstUnsat.solver + "+" + r.solver
+				}
 				break // the remaining runs are cancelled
 			}
 		}
 		pcancel()
+		if res.verdict != "unsat" && res.verdict != "sat" && firstUnsat != nil {
+			if os.Getenv("GOVC_CONFIRM") == "record" {
+				fmt.Fprintf(os.Stderr, "UNCONFIRMED(record) %s first=%s %dms (fallback)\n", file, firstUnsat.solver, firstUnsat.ms)
+				res = *firstUnsat
+			} else {
+				res = *firstUnsat
+				res.verdict = "unconfirmed"
+				res.solver += "(unsat not reproduced by any other seed or solver)"
+			}
+		}
 	}
 	if s.tier == "thorough" && res.verdict == "unsat" && !o.Cover {
 		// require a second, independent solver to agree (best effort: an
@@ -371,6 +438,68 @@ func (s *Solver) solve(o *Oblig) {
 			ent.relaxed = rr.out
 		}
 	}
+}
+
+// confirmUnsat re-runs a query that one solver run has answered `unsat` under a different
+// configuration (another random seed of the same solver first, then the other solvers and seeds
+// in parallel).  z3 5.1.0 has been observed to answer `unsat` on satisfiable queries of this
+// shape (DESIGN 11.4: the answer disappears when any one of ~840 of 917 assertions is removed,
+// and no other seed or solver reproduces it), so a single `unsat` is not taken as a proof.
+func (s *Solver) confirmUnsat(file string, first solveResult, firstSeed int, budget int) (bool, []solveResult) {
+	mode := os.Getenv("GOVC_CONFIRM")
+	if mode == "off" {
+		return true, nil
+	}
+	var all []solveResult
+	b1 := int(first.ms/1000)*3 + 3
+	if b1 > budget {
+		b1 = budget
+	}
+	firstIsZ3new := strings.HasPrefix(first.solver, solvers[0].name)
+	sd := s.seed
+	if firstIsZ3new {
+		sd = firstSeed + 15485863
+	}
+	r := runSolver(solvers[0], file, b1, sd)
+	r.solver += fmt.Sprintf("(confirm, seed %d)", sd)
+	all = append(all, r)
+	if r.verdict == "unsat" {
+		return true, all
+	}
+	type alt struct {
+		sv   solverSpec
+		seed int
+	}
+	alts := []alt{{solvers[1], s.seed}, {solvers[2], s.seed}, {solvers[0], firstSeed + 32452843}, {solvers[0], firstSeed + 49979687}}
+	ch := make(chan solveResult, len(alts))
+	pctx, pcancel := context.WithCancel(context.Background())
+	defer pcancel()
+	n := 0
+	for _, a := range alts {
+		if strings.HasPrefix(first.solver, a.sv.name) && a.sv.name != solvers[0].name {
+			continue
+		}
+		n++
+		go func(a alt) {
+			r := runSolverCtx(pctx, a.sv, file, budget, a.seed)
+			r.solver += fmt.Sprintf("(confirm, seed %d)", a.seed)
+			ch <- r
+		}(a)
+	}
+	ok := false
+	for i := 0; i < n; i++ {
+		r := <-ch
+		all = append(all, r)
+		if r.verdict == "unsat" {
+			ok = true
+			break
+		}
+	}
+	if !ok && mode == "record" {
+		fmt.Fprintf(os.Stderr, "UNCONFIRMED(record) %s first=%s %dms\n", file, first.solver, first.ms)
+		return true, all
+	}
+	return ok, all
 }
 
 func (s *Solver) solveAll(obs []*Oblig, workers int) {
